@@ -60,7 +60,7 @@ pub struct Corpus {
 }
 
 impl Corpus {
-    pub fn load(max_g_size: usize) -> Result<Corpus, String> {
+    pub fn load(max_g_size: usize, with_g7: bool) -> Result<Corpus, String> {
         let root = verif_root().join("corpus");
         let k0 = load_list(&root.join("known_euclidean.txt"), "K")?;
         let finite = load_list(&root.join("known_finite.txt"), "F")?;
@@ -68,6 +68,9 @@ impl Corpus {
         g.retain(|e| Sym::parse(&e.text).map(|s| s.n <= max_g_size).unwrap_or(false));
         let extra_from = g.len();
         g.extend(load_list(&root.join("G56_filter_passing.txt"), "H")?);
+        if with_g7 {
+            g.extend(load_list(&root.join("G7_filter_passing.txt"), "I")?);
+        }
         let finite_small = load_list(&root.join("finite_small.txt"), "S")?;
         let mut manifold_covers = vec![];
         let path = root.join("finite_manifold_covers.txt");
